@@ -1,7 +1,7 @@
 //! Leg A for the state animator: replay spec-generated histories (REPLAY lines of MC_Animator)
 //! on a real StateAnimatorBuilder animator and compare every observation after every call.
 use crate::common::*;
-use crate::tl::{build_tl, config_tl, scale, Tally};
+use crate::tl::{build_tl, config_tl, scale, Tally, SUBMICRO, TENTH};
 use mina::prelude::*;
 use serde_json::{json, Value};
 use std::panic::{catch_unwind, AssertUnwindSafe};
@@ -39,7 +39,7 @@ pub fn build_anim_order(line: &Value, s: i64, on_first: bool) -> Anim {
     b.build()
 }
 
-fn dur(ticks: i64, s: i64) -> f64 { ticks as f64 * (2.0f64).powi(s as i32) }
+fn dur(ticks: i64, s: i64) -> f64 { ticks as f64 * match s { TENTH => 0.1f32 as f64, SUBMICRO => 5.12e-7, _ => (2.0f64).powi(s as i32) } }
 
 pub fn replay_anim_line(tally: &mut Tally, lineno: usize, line: &Value, scales: &[i64]) {
     tally.lines += 1;
@@ -59,6 +59,8 @@ pub fn replay_anim_line(tally: &mut Tally, lineno: usize, line: &Value, scales: 
     let mut passes: Vec<(i64, f32)> = scales.iter().map(|&s| (s, 1.0f32)).collect();
     passes.push((scales[0], big));
     passes.push((-6, 1.0));          // fine grid, tolerance regime (see `fine` below)
+    passes.push((TENTH, 1.0));       // 0.1 s ticks: neither the cycle nor the total is a dyadic number of seconds
+    passes.push((SUBMICRO, 1.0));    // 512 ns ticks: single frames below one microsecond
     for &(s, vs) in &passes {
         crate::tl::set_vscale(vs);
         let r = catch_unwind(AssertUnwindSafe(|| {
@@ -69,12 +71,16 @@ pub fn replay_anim_line(tally: &mut Tally, lineno: usize, line: &Value, scales: 
             // Below the 1/8 s grid `as_secs_f32` is not exact: the evaluated time may be one f32 step off the
             // exact clock.  Values and the clock are then judged to tolerance, and not at all at instants where
             // an f32 step changes the outcome discontinuously (cycle wrap, exact end).
-            let fine = s < -3;
+            let fine = s < -3 || s >= TENTH;
+            // instants where a rounding step of the real time changes the outcome discontinuously: the start,
+            // every cycle boundary and half cycle up to and including the end; strictly after the end of a finite
+            // component nothing moves any more
             let on_edge = |stno: i64, ticks: i64| -> bool {
                 line["tls"][(stno - 1) as usize].as_array().unwrap().iter().any(|c| {
                     let tm = &c["tm"];
-                    let (cyc, del) = (tm["cyc"].as_i64().unwrap(), tm["del"].as_i64().unwrap());
-                    ticks >= del && ((ticks - del) % cyc == 0 || (2 * (ticks - del)) % cyc == 0)
+                    let (cyc, del, rep) = (tm["cyc"].as_i64().unwrap(), tm["del"].as_i64().unwrap(), tm["rep"].as_i64().unwrap());
+                    let over = rep != -2 && rep != -3 && ticks > del + cyc * (rep.max(0) + 1);
+                    ticks >= del && !over && ((ticks - del) % cyc == 0 || (2 * (ticks - del)) % cyc == 0)
                 })
             };
             for (i, (op, ob)) in ops.iter().zip(obs.iter()).enumerate() {
@@ -108,7 +114,13 @@ pub fn replay_anim_line(tally: &mut Tally, lineno: usize, line: &Value, scales: 
                 // at such an instant the real time may fall on either side of a discontinuity, and the values
                 // reached there are inherited by every later blend: the fine pass stops judging this history
                 let edge = fine && on_edge(ob["st"].as_i64().unwrap(), ob["ticks"].as_i64().unwrap());
-                if edge { break; }
+                if edge {
+                    // nothing is judged at the instant itself; what was shown there is inherited only if the
+                    // state is changed at this very instant (blend start / frozen values), else recomputed
+                    let inherits = ops.get(i + 1).map(|n| n["op"] == "set" && n["st"].as_i64() != ob["st"].as_i64()).unwrap_or(false);
+                    if inherits { break; }
+                    continue;
+                }
                 if a.is_ended() != ob["ended"].as_bool().unwrap() { t.miss(ctx("ended", json!({"got": a.is_ended(), "expected": ob["ended"], "ticks": ob["ticks"]}))); }
                 let v = a.current_values();
                 for (pi, term) in ob["vals"].as_array().unwrap().iter().enumerate() {
